@@ -25,11 +25,15 @@ var c07Alpha = []*BatchSpec{
 	kv("zz", "<del>", "k0", "$"), // deletion of a key that was never set and sorts after every other key
 	{DelKids: []string{"A"}},
 	{Kids: kid("A", kv("y", "$"))},
+	{Ops: kv("big", c07Big).Ops, Kids: kid("A", kv("w", "$"))}, // a large first segment for the top level and a segment of A next to it
 }
 
 // c07Rounds: what is executed between two persistence rounds (usually one batch; the last entry deletes child
 // collection A and recreates it with another key within the same round).
-var c07Rounds = [][]int{{0}, {1}, {2}, {3}, {4}, {5}, {6}, {7, 8}}
+// The ninth round (big value + child A) is only used by the child-collection family.
+var c07Rounds = [][]int{{0}, {1}, {2}, {3}, {4}, {5}, {6}, {7, 8}, {9}}
+
+const c07GeneralRounds = 8
 
 func c07Unused() {
 }
@@ -152,7 +156,7 @@ func dataFiles(dir string) []string {
 func c07One(cfg Config, seq []int, res *c07Res) *Violation {
 	w := NewWorld(cfg, c07Alpha)
 	defer w.Teardown()
-	w.probes = []string{"k0", "k1", "k2", "k3", "k4", "big", "x", "y", "zz"}
+	w.probes = []string{"k0", "k1", "k2", "k3", "k4", "big", "x", "y", "w", "zz"}
 	if w.infra != "" {
 		res.Infra = w.infra
 		return nil
@@ -274,14 +278,33 @@ func checkC07(prop, tier string) int {
 			seqs = append(seqs, append([]int{}, cur...))
 			return
 		}
-		for i := range c07Rounds {
+		for i := 0; i < c07GeneralRounds; i++ {
 			gen(append(cur, i))
 		}
 	}
 	gen(nil)
+	// child-collection family: longer sequences over a sub-alphabet (large value + child A; child A written; A deleted
+	// and recreated within one round; one key), so that a recreated child meets persisted segments of its predecessor
+	// below the splice point of a partial compaction
+	var childSeqs [][]int
+	childRounds, childAlpha := 5, []int{8, 5, 7, 0}
+	if tier == "thorough" {
+		childRounds, childAlpha = 7, []int{8, 5, 7, 0}
+	}
+	var genChild func(cur []int)
+	genChild = func(cur []int) {
+		if len(cur) == childRounds {
+			childSeqs = append(childSeqs, append([]int{}, cur...))
+			return
+		}
+		for _, i := range childAlpha {
+			genChild(append(cur, i))
+		}
+	}
+	genChild(nil)
 	var jobs []Job
 	cfgs := c07Configs(tier)
-	for _, cfg := range cfgs {
+	addJobs := func(cfg Config, seqs [][]int) {
 		for i := 0; i < len(seqs); i += 24 {
 			k := i + 24
 			if k > len(seqs) {
@@ -289,6 +312,14 @@ func checkC07(prop, tier string) int {
 			}
 			jobs = append(jobs, Job{Kind: "c07", Data: mustJSON(c07Job{Cfg: cfg, Seqs: seqs[i:k]})})
 		}
+	}
+	for _, cfg := range cfgs {
+		if cfg.Concern == 1 {
+			addJobs(cfg, childSeqs) // first, so that a deadline cuts the general family rather than this one
+		}
+	}
+	for _, cfg := range cfgs {
+		addJobs(cfg, seqs)
 	}
 	pool := NewPool()
 	pool.Deadline = time.Now().Add(tierDeadline(tier))
@@ -347,11 +378,13 @@ func checkC07(prop, tier string) int {
 			"traces_validated_against_impl": tot.Seqs,
 			"evaluations":                   tot.Seqs,
 			"distinct_nontrivial":           len(tot.Splices),
-			"rule":                          "every sequence of R persistence rounds over an 8-round alphabet (1 key, 3 keys, a 5000-byte value, overwrite, delete+insert, child-collection write + delete, deletion of a never-set last key, child collection deleted and recreated within one round) x option points (concern, CompactionLevelMaxSegments, CompactionLevelMultiplier, CompactionPercentage, CompactionBufferPages, NoSync), on the real collection + store under the controlled scheduler; after every round: store snapshot == collection snapshot == reference; after a full compaction: <=1 segment per collection, no deletion markers, no duplicate keys; at the end: one data file. distinct_nontrivial = distinct (segments before -> after, compaction kind) transitions observed, i.e. the splice points exercised",
+			"rule":                          "every sequence of R persistence rounds over an 8-round alphabet (1 key, 3 keys, a 5000-byte value, overwrite, delete+insert, child-collection write + delete, deletion of a never-set last key, child collection deleted and recreated within one round) x option points (concern, CompactionLevelMaxSegments, CompactionLevelMultiplier, CompactionPercentage, CompactionBufferPages, NoSync), plus, on the CompactionAllow option points, every sequence of R+1 (thorough R+2) rounds over the child-collection sub-alphabet (large value + child A written; child A written; A deleted and recreated within one round; 1 key), on the real collection + store under the controlled scheduler; after every round: store snapshot == collection snapshot == reference; after a full compaction: <=1 segment per collection, no deletion markers, no duplicate keys; at the end: one data file. distinct_nontrivial = distinct (segments before -> after, compaction kind) transitions observed, i.e. the splice points exercised",
 			"samples":                       samples,
 			"exhaustive":                    infra == 0 && skipped == 0,
 			"cap_hit":                       fmt.Sprintf("%d of %d jobs skipped by the deadline", skipped, len(jobs)),
 			"rounds_per_sequence":           rounds,
+			"child_family_rounds":           childRounds,
+			"child_family_sequences":        len(childSeqs),
 			"sequences_run":                 tot.Seqs,
 			"full_compactions":              tot.Full,
 			"partial_compactions":           tot.Partial,
